@@ -299,6 +299,25 @@ def compare_pairs(run_dir):
     return mism, n
 
 
+def coq_deps(files):
+    """transitive `From Bexpr Require` dependencies of the given coq/ files (file names)"""
+    seen = set()
+    def go(f):
+        if f in seen:
+            return
+        seen.add(f)
+        try:
+            txt = open(os.path.join(COQ, f)).read()
+        except OSError:
+            return
+        for m in re.finditer(r"From Bexpr Require (?:Import|Export) ([^.]*)\.", txt):
+            for n in m.group(1).split():
+                go(n + ".v")
+    for f in files:
+        go(f)
+    return seen
+
+
 def known_findings():
     """KNOWN_FINDINGS: lines `finding: property=<id> key=<key> <what fails>` are suppressed (printed as KNOWN-FINDING);
     `fixed:` lines suppress nothing."""
